@@ -133,12 +133,6 @@ fn push_sample(out: &mut Vec<u8>, s: i16) {
 }
 
 impl Content {
-    pub fn len(&self) -> usize {
-        match self {
-            Content::Desc { len, .. } => *len,
-            Content::Bytes(b) => b.len(),
-        }
-    }
     pub fn kind_name(&self) -> &'static str {
         match self {
             Content::Desc { kind, .. } => kind.name(),
